@@ -278,6 +278,16 @@ func (w *Worker) runPath(st *State) {
 		if st.steps > e.cfg.MaxSteps {
 			panic(cutErr{"step budget exceeded (unwinding failure)"})
 		}
+		if st.steps&0x3ff == 0 && !e.cfg.Deadline.IsZero() && time.Now().After(e.cfg.Deadline) {
+			e.res.mu.Lock()
+			e.res.Timeout = true
+			e.res.mu.Unlock()
+			e.qmu.Lock()
+			e.stopped = true
+			e.qcond.Broadcast()
+			e.qmu.Unlock()
+			panic(cutErr{"INFEASIBLE"}) // abandon silently; the harness is marked as timed out
+		}
 		w.step(st)
 	}
 }
